@@ -96,6 +96,9 @@ def c06(msizes, auths, frameN, frameMsize, unpackN):
         runs.append({"harness": "vxH06Reneg", "args": [dotu], "files": ["api", "ref_wire", "kit_srv", "kit_net", "kit_fs", "reneg_c06"], "preempt": 0, "free_switches": -1, "reach": ["done"],
                      "bounds": f"Ufs session: Tversion with symbolic msize 24..40, a second Tversion with any 32-bit msize, attach, open the root directory, Tread with any 32-bit count, Tstat; dotu={dotu}"})
     for dotu in ("false", "true"):
+        runs.append({"harness": "vxH06UfsAuth", "args": [dotu], "files": ["api", "ref_wire", "kit_srv", "kit_net", "kit_fs", "reneg_c06"], "preempt": 0, "free_switches": -1, "reach": ["done"],
+                     "bounds": f"Ufs session: Tauth with any afid, attach, attach naming an existing fid as afid, attach with a 2-byte symbolic aname, Tclunk of any fid, hang-up with fids alive; dotu={dotu}"})
+    for dotu in ("false", "true"):
         runs.append({"harness": "vxH15Window", "args": [dotu, "4", "8", "true"], "files": ["api", "ref_wire", "kit_srv", "kit_fs", "c15_dirread"], "reach": ["arbitrary-offset"],
                      "bounds": f"Ufs directory Tread at an arbitrary 64-bit offset and 32-bit count on an arbitrary valid snapshot (<= 4 entries), dotu={dotu}"})
         runs.append({"harness": "vxH14Read", "args": [dotu, "8", "10"], "files": ["api", "ref_wire", "kit_srv", "kit_fs", "c14_data"], "reach": [],
@@ -128,8 +131,11 @@ def c13s(combos):
     F = KIT + ["c13_seg_srv"]
     return [{"harness": "vxH13SrvSession", "args": [str(m), "true" if d else "false", str(n), str(c)], "files": F, "preempt": 0, "free_switches": -1, "reach": ["done"], "timeout_s": 2400,
              "bounds": f"whole session as one stream on a .u server with msize 8192: Tversion(msize {m}, {'9P2000.u' if d else '9P2000'}) and {n} independent Tattach requests with symbolic attach names, delivered under {'one byte at a time' if c < 0 else f'every choice of {c} cut position(s)'} vs. one segment"} for (m, d, n, c) in combos]
-w("C13", merge_frag({"quick": c13([(32, 15, 3, 1), (32, 7, 3, 2), (32, 15, 3, -1), (64, 6, 9, 1)]) + c13s([(32, False, 3, 1), (32, True, 3, 1), (64, False, 4, -1)]),
- "thorough": c13([(32, 30, 3, 1), (32, 15, 3, 2), (32, 5, 3, 3), (32, 30, 3, -1), (64, 30, 9, 1), (64, 12, 9, 2)]) + c13s([(32, False, 12, 1), (32, True, 12, 1), (32, False, 4, 2), (64, True, 6, 2), (32, False, 12, -1)]),
+def c13e(ms):
+    return [{"harness": "vxH13SrvEdge", "args": [str(m)], "files": KIT + ["c13_seg_srv"], "preempt": 0, "free_switches": -1, "reach": ["done"],
+             "bounds": f"server receive loop, msize {m}: a stream laid out so that a message boundary falls 0..4 bytes before the end of the 8*msize receive buffer, delivered in one segment (the read fills the buffer to its last byte) vs. message by message"} for m in ms]
+w("C13", merge_frag({"quick": c13([(32, 15, 3, 1), (32, 7, 3, 2), (32, 15, 3, -1), (64, 6, 9, 1)]) + c13s([(32, False, 3, 1), (32, True, 3, 1), (64, False, 4, -1)]) + c13e([32, 64]),
+ "thorough": c13([(32, 30, 3, 1), (32, 15, 3, 2), (32, 5, 3, 3), (32, 30, 3, -1), (64, 30, 9, 1), (64, 12, 9, 2)]) + c13s([(32, False, 12, 1), (32, True, 12, 1), (32, False, 4, 2), (64, True, 6, 2), (32, False, 12, -1)]) + c13e([32, 48, 64, 100, 128]),
  "outside": ["4 or more independent cuts on long streams; msize > 64", "interleavings of the worker goroutines (covered by C03/C08)"],
  "assumptions": [SCHED]}, "C13_clnt.frag.json"))
 
